@@ -10,6 +10,7 @@ CONSTANTS
   MaxFrames = 0
   MaxReads = 0
   MaxEdits = 2
+  MaxFaults = 0
   EditOps <- OpsHs
   Weak_ChallengeNotBound = FALSE
   Weak_ChallengeDHOnly = FALSE
@@ -19,6 +20,7 @@ CONSTANTS
   Weak_SameKeyBothDirections = FALSE
   Weak_ReadIgnoresAuthError = FALSE
   Weak_VerifyWrongKey = FALSE
+  Weak_NonceAfterTransportWrite = FALSE
 INIT Init
 NEXT Next
 INVARIANTS Authenticated NonceFresh PrefixExact TamperFails DeliveredExact LowOrderRefused
